@@ -33,6 +33,9 @@ CLAIMS = {
  'C07': dict(engine='PATH', technique='whole-unit CFG analysis of vec.c/buf.c/str.c/que.c: allocation sites by def-use of the loaded global a_alloc, bottom-up fallible-function summaries, boolean structure of branch conditions (truth-table entailment), pointer-provenance effect sets, dominance / all-paths-cross-an-edge / must-pass-through queries',
    cat='other', text='A1 every allocation result is used only behind an edge entailing "non-null (or size 0)"; A2 allocate-then-mutate: for every failure point (21 a_alloc sites, every call to a fallible function) no container mutation can precede it and every later mutation is separated from it on all CFG paths by an edge establishing success; A3 every fallible result is tested or handed on and failure edges return the failure indicator; A4 successful allocations are stored/returned/freed on every path, reallocation never overwrites the owner untested, destructors free every owning field and die = dtor + free(self). This covers every allocation request of every operation being the failing one; "succeeds later" follows from the unchanged state',
    note=TRUST + ', lib/path.py, lib/effects.py; assumes callbacks do not touch the container and a_alloc follows its documented protocol; spare-room writes behind the content of a string (the measuring vsnprintf) count as compensated when the failure path restores the terminator; NOT decided: exactly-once release over whole histories (only per-function ownership and destructor coverage); known findings (recorded, not repaired): a_que_drop and a_que_setz mutate before their fallible steps'),
+ 'C10': dict(engine='ALG+CFG', technique='constant-table comparison at the precision of the real type; IR-level binding rule per switch in the all-on build (both widths); abstract interpretation of the all-off build over exact terms with exponential normal form for the elementary fallbacks; uninterpreted-pair summaries of base functions applied to the current value of *ctx for compositions and in-place hazards; per-branch sign analysis for the principal square root',
+   cat='other', text='all 21 constants equal their closed forms; each of the 15 libm-switched functions is exactly one call of the like-named C99 function of the right width on *ctx (atanh documented as always-fallback); all field operations incl. real/imaginary scalar forms equal the field operation (so documented inverse pairs compose to the identity); exp/sin/cos/tan/sinh/cosh/tanh fallbacks equal their defining exponential forms on every branch; log/log2/log10/logb/pow/pow_real and the 15 reciprocal/inverse/hyperbolic-inverse derived functions equal their documented compositions evaluated on the ENTRY value; the fallback square root is the principal value in all quadrants',
+   note=TRUST + ', sympy; every #if region depends on its own switch only (rule CFG-0), so all-on/all-off cover all 2^16 configurations per function; IEEE operations read as exact real operations: NOT decided are accuracy in ulps, values on branch cuts/poles, and the GSL-style piecewise bodies of the asin/acos/atan fallbacks (only their use in compositions is checked) and the real-argument variants on their cuts'),
 }
 
 NA = {
@@ -65,7 +68,7 @@ def main():
                   'baseline_off_cmd': 'ctest --test-dir /repo/_build -j8 --timeout 900', 'source_commits': [], 'add_only': True},
         'engines': [
             {'name': 'irx+llir', 'path': 'lib/irx.py, lib/llir.py', 'serves_properties': sorted(CLAIMS), 'kind_free_text': 'clang/opt IR pipeline and IR reader (CFG, dominators, loops, def-use)'},
-            {'name': 'ALG', 'path': 'lib/symx.py, lib/alg.py', 'serves_properties': ['C12', 'C13', 'C15', 'C16', 'C17', 'C19'], 'kind_free_text': 'abstract interpreter over exact algebraic values with trace partitioning'},
+            {'name': 'ALG', 'path': 'lib/symx.py, lib/alg.py', 'serves_properties': ['C10', 'C12', 'C13', 'C15', 'C16', 'C17', 'C19'], 'kind_free_text': 'abstract interpreter over exact algebraic values with trace partitioning'},
             {'name': 'BIT', 'path': 'lib/bit.py, lib/looptx.py', 'serves_properties': ['C17', 'C18', 'C19'], 'kind_free_text': 'GF(2) algebraic-normal-form bit vectors; loop-body state transformers'},
             {'name': 'PATH', 'path': 'lib/path.py, lib/effects.py', 'serves_properties': ['C07', 'C12'], 'kind_free_text': 'CFG path, typestate and effect rules'},
             {'name': 'ABI', 'path': 'props/C20.py, lib/dwarf.py, lib/rustsrc.py', 'serves_properties': ['C20'], 'kind_free_text': 'declaration and layout agreement'},
